@@ -221,6 +221,38 @@ Proof.
     destruct (Z.eqb_spec crc 0); [contradiction|]. destruct (Z.eqb_spec (crc32 X' 0) crc); [contradiction|]. reflexivity.
 Qed.
 
+(* ---- (1') the general form: ANY damaged log whose records up to some segment header are intact.  The header itself may
+   be damaged too (stored checksum crc', length len): if crc' is not 0 and is not the checksum of the len bytes that
+   follow, the replay does not get past it.  "crc = 0 means unchecked" is part of the format (crc_zero_unchecked_refuted). *)
+Theorem corrupt_segment_detected : forall Rpre crc' len X' post,
+  forallb rec_range Rpre = true -> crc_ok Rpre = true -> head_sep Rpre = true -> sep_fit Rpre 0 (size Rpre) = true ->
+  u32 crc' = true -> u32 len = true -> lenZ X' = len ->
+  let L' := encode Rpre ++ enc_rec (RSep crc' len) ++ X' ++ post in
+  snd (scan L') = 0 -> crc' <> 0 -> crc32 X' 0 <> crc' ->
+  let f := fst (scan L') in
+  replay_ops true 1 0 L' =
+    if f =? 0 then (VOk, []) else
+    if existsb (Z.eqb f) (sp_offsets Rpre 0) then (VOk, ops_before Rpre 0 f) else (VCorrupt, bops Rpre).
+Proof.
+  intros Rpre crc' len X' post Hr Hcrc Hh Hfit Hu1 Hu2 HX L' Hrp Hc0 Hcx f.
+  set (T := enc_rec (RSep crc' len) ++ X' ++ post) in *.
+  assert (Hrs : rec_range (RSep crc' len) = true) by (cbn [rec_range]; rewrite Hu1, Hu2; reflexivity).
+  assert (HlenX : length X' = Z.to_nat len) by (unfold lenZ in HX; lia).
+  assert (Hlen0 : 0 <= len) by (unfold lenZ in HX; lia).
+  assert (HTlen : (12 + length X' <= length T)%nat).
+  { unfold T. rewrite !app_length. cbn [enc_rec hdr app length le_enc]. lia. }
+  unfold f, L'. apply (replay_damaged Rpre [] T 0); auto; try lia.
+  - rewrite Z.add_0_r. exact Hfit.
+  - rewrite app_nil_r. exact Hcrc.
+  - intros fpos. unfold T. rewrite replay_step_whole by exact Hrs. fold T.
+    cbn [rrstep]. destruct (len >? Z.of_nat (length T)); [reflexivity|].
+    assert (Hall : firstn (length T - 12) (X' ++ post) = X' ++ post).
+    { apply firstn_all2. unfold T. rewrite !app_length. cbn [enc_rec hdr app length le_enc]. lia. }
+    rewrite Hall. replace len with (Z.of_nat (length X')) at 1 by lia.
+    rewrite take_pad_exact by (rewrite app_length; lia). rewrite firstn_app_exact by reflexivity.
+    destruct (Z.eqb_spec crc' 0); [contradiction|]. destruct (Z.eqb_spec (crc32 X' 0) crc'); [contradiction|]. reflexivity.
+Qed.
+
 (* ---- (2) the payload of a WRITE record (covered by the record's own checksum; with the buffer bypass by nothing else) *)
 Theorem flip_in_payload : forall Rpre crc off payload Rrest X',
   let R := Rpre ++ RWrite crc off payload :: Rrest in
@@ -337,3 +369,15 @@ Theorem reset_mark_bypass_refuted :
   rb_view (recover true 1 0 rb_L' rb_main) = (VOk, [AWrite 5 [3]], 0, 3) /\
   rb_view (recover true 1 0 rb_log rb_main) = (VOk, [AWrite 0 [1]; AWrite 1 [2;2;2;2]; AWrite 5 [3]], 1, 3).
 Proof. vm_compute. repeat split; reflexivity. Qed.
+
+(* ---- the first escape is real too, and needs no collision: the stored checksums are not covered by anything, and 0
+   means "not checked".  Same log; 9 bytes changed: the checksum field of the second segment header (4 bytes -> 0), the
+   checksum field of its WRITE record (4 bytes -> 0), one payload byte (2 -> 9).  Every check is switched off for that
+   segment: rc 0, the store holds a byte no operation ever wrote. *)
+Definition cz_L' : bytes := damaged (damaged (damaged rb_log 49 [0;0;0;0]) 61 [0;0;0;0]) 77 [9].
+Theorem crc_zero_unchecked_refuted :
+  (firstn 4 (skipn 49 rb_log) <> [0;0;0;0] /\ firstn 4 (skipn 61 rb_log) <> [0;0;0;0] /\ nth 77 rb_log 0 = 2) /\
+  length cz_L' = length rb_log /\ scan cz_L' = (126, 0) /\
+  let '(v, m, ops) := recover true 1 0 cz_L' rb_main in
+  (v, ops, firstn 6 m) = (VOk, [AWrite 0 [1]; AWrite 1 [9;2;2;2]; AWrite 5 [3]], [1;9;2;2;2;3]).
+Proof. vm_compute. repeat split; try reflexivity; discriminate. Qed.
